@@ -103,7 +103,7 @@ func c20(c *Check) {
 
 	c.Rule("C20/unique-denominations", "min-per-denomination requires each denomination once: the parameter validator rejects duplicates, empty denominations and negative amounts", 3)
 	c.Spec("C20/unique-denominations", Macros{"E": "$0.(cosmos-sdk/types.Coins)#0[μ{0}]"}, FnSpec{Fn: "x/rvesting/types.validatePerBlockReward", Guards: []G{
-		{"duplicate", "reject make(map[string]bool)[{E}.Denom]"},
+		{"duplicate", "reject has(make(set[string]), {E}.Denom)"},
 		{"empty-denom", "reject (0 == len({E}.Denom))"},
 		{"negative", "reject cosmos-sdk/types.(Coin).IsNegative({E})"},
 	}})
